@@ -54,8 +54,50 @@ def shape_cases(seed, tier):
         yield {"net": name, "bnet": bnet, "config": families.config_variant(rng), "history": hist}
 
 
+SCC_ATTACH_FIRST = families.norm("A, B; B, A; C, D; D, C; G, H; H, G; E, !F | A; F, E & !C")  # the instance that revealed the shape
+
+
+def scc_attach_cases(seed, tier):
+    """shape added after the seeded-change review: networks with SEVERAL source SCCs (independent bistable / oscillating modules, optionally with a
+    downstream module); an attractor query (candidates / seeds / sets) on a stub - the root or a child of the root - then (optionally a pickle round
+    trip / reclaim and) expand_scc with and without the motif-avoidance check, which attaches one sub-diagram per source SCC below that stub: the
+    attach points (the stub itself and, for the second, third ... SCC, the leaves of the sub-diagram attached before) must not keep their data."""
+    nets = [("scc_attach_first", SCC_ATTACH_FIRST), ("two_switches", families.switches(2)), ("three_switches", families.switches(3))]
+    nets += list(families.LIMIT_NETS.items()) + [(k, v) for k, v in families.DEEP.items() if k not in ("deep", "D5", "source_chain")]
+    more = [x for pair in zip(families.limit_nets(seed, tier), families.tie_nets(seed, tier), families.deep_nets(seed, tier)) for x in pair]
+    more += list(families.limit_nets(seed, tier))[20:]
+    queries = [["sets", 0], ["seeds", 0, False], ["cands", 0, True, True], ["cands", 0, False, False]]
+    done = set()
+    k = 0
+    for name, bnet in nets + more:
+        names = families.variables(bnet)
+        if bnet in done or len(names) > 8:
+            continue
+        done.add(bnet)
+        k += 1
+        rng = random.Random(f"{seed}-{name}-c14-scc")
+        hists = []
+        for q in queries:
+            for maa in (False, True):
+                for mid in ([], [["pickle"]], [["reclaim"]]):
+                    hists.append([q] + mid + [["scc", maa]])                                                              # stub root
+                    for child in (1, 2, 3, 4):
+                        hists.append([["succ", 0], [q[0], child] + q[2:]] + mid + [["scc", maa]])                        # stub child of the root
+                    hists.append([["succ", 0], [q[0], 1] + q[2:], [q[0], 3] + q[2:], [q[0], 0] + q[2:]] + mid + [["scc", maa]])
+        first = [[["sets", 0], ["scc", False]], [["succ", 0], ["sets", 1], ["pickle"], ["scc", False]]]
+        # candidates are an over-approximation (a stale list is not wrong by itself) and the motif-avoidance check overwrites seeds / sets of attach points:
+        # two thirds of the histories query seeds / sets and switch the check off
+        strong = [h for h in hists if h[-1] == ["scc", False] and not any(st[0] == "cands" for st in h)]
+        n = 6 if k <= 12 else 3
+        chosen = (first + hists[:60:7]) if k == 1 else rng.sample(strong, n - n // 3) + rng.sample(hists, n // 3)
+        for h in chosen:
+            if rng.random() < 0.3:
+                h = h + [rng.choice([["seeds", 0, False], ["sets", 1], ["aseeds", None], ["bfs", None, None, None]])]
+            yield {"net": name, "bnet": bnet, "config": {}, "history": h}
+
+
 def cases(seed, tier):
-    yield from families.interleave((shape_cases(seed, tier), 1), (general_cases(seed, tier), 4))
+    yield from families.interleave((scc_attach_cases(seed, tier), 1), (shape_cases(seed, tier), 1), (general_cases(seed, tier), 4))
 
 
 def general_cases(seed, tier):
